@@ -195,6 +195,81 @@ var ruleLast = &Rule{
 				out.viol(key, p.pos(s.Store.Pos()), fnName(sub), "the size recorded for `last` is the length of "+measured.Name()+", but the subscripts select from a different value (the array after lax auto-wrapping): `last` is then not n−1 of the array being subscripted")
 			}
 		}
+		// nobody else gives the field a value of its own: elsewhere it is
+		// only set by the constructor or put back to what it was
+		{
+			var fns []*ssa.Function
+			for fn := range p.AllFns {
+				if fnPkgPath(fn) == pkgExec && fn.Blocks != nil && fn != sub {
+					fns = append(fns, fn)
+				}
+			}
+			sortFuncs(fns)
+			for _, fn := range fns {
+				ss := p.execStores(fn)
+				for _, s := range ss {
+					if s.Field != sizeField {
+						continue
+					}
+					if p.allFreshRecv(fn, ss) {
+						continue // constructor
+					}
+					key := fnName(fn) + " sets the array size of `last`"
+					if ld, f := p.traceSaved(fn, s.Store.Val, s.Store, 0); ld != nil && f == sizeField {
+						out.ok(key, p.pos(s.Store.Pos()), fnName(fn), "puts back a value the field had before")
+						continue
+					}
+					// a setter (`restoreInnermostArraySize(prev)`): judged at its calls
+					if q, isParam := s.Store.Val.(*ssa.Parameter); isParam {
+						ncall, badAt := 0, ""
+						for _, g := range p.execFuncs() {
+							for _, c := range p.allCalls(g) {
+								if c.Call.StaticCallee() != fn {
+									continue
+								}
+								ncall++
+								a := c.Call.Args[paramIndex(q)]
+								if ld, f := p.traceSaved(g, a, c, 0); ld != nil && f == sizeField {
+									continue
+								}
+								if lc, ok := a.(*ssa.Call); ok && g == sub {
+									if bi, ok := lc.Call.Value.(*ssa.Builtin); ok && bi.Name() == "len" {
+										continue
+									}
+								}
+								if badAt == "" {
+									badAt = p.pos(c.Pos())
+								}
+							}
+						}
+						// deferred calls
+						for _, g := range p.execFuncs() {
+							for _, b := range g.Blocks {
+								for _, ins := range b.Instrs {
+									d, ok := ins.(*ssa.Defer)
+									if !ok || d.Call.StaticCallee() != fn {
+										continue
+									}
+									ncall++
+									a := d.Call.Args[paramIndex(q)]
+									if ld, f := p.traceSaved(g, a, d, 0); ld != nil && f == sizeField {
+										continue
+									}
+									if badAt == "" {
+										badAt = p.pos(d.Pos())
+									}
+								}
+							}
+						}
+						if ncall > 0 && badAt == "" {
+							out.ok(key, p.pos(s.Store.Pos()), fnName(fn), fmt.Sprintf("a setter: each of its %d calls hands it a value the field had before (or the selected array's length)", ncall))
+							continue
+						}
+					}
+					out.viol(key, p.pos(s.Store.Pos()), fnName(fn), "the size of the innermost subscripted array is overwritten with "+trunc(s.Store.Val.String(), 40)+" outside the subscript executor: inside the subscript, `last` no longer denotes n−1 of the array being subscripted (or fails as if it were outside a subscript)")
+				}
+			}
+		}
 		// the last arm
 		cfn := p.itemArm("ConstNode")
 		ei := p.A.Enums["Constant"]
@@ -567,7 +642,7 @@ func init() {
 	register(ruleSelect, ruleLast, ruleTrunc, ruleMethodTypes)
 	addProp(&PropSpec{
 		ID:          "C14",
-		Rules:       []string{"R-SELECT", "R-LAST", "R-TRUNC", "R-F2I", "R-STATE", "R-MODEGUARD", "R-LAUNDER", "R-LISTINDEX", "R-SUBEVAL", "R-LITCHAIN", "R-EXECADDR", "R-SUBBOUNDS", "R-COLLMONO", "R-INPUT-RO", "R-RESUPPRESS", "R-JSONNUM"},
+		Rules:       []string{"R-SELECT", "R-LAST", "R-TRUNC", "R-F2I", "R-STATE", "R-MODEGUARD", "R-LAUNDER", "R-LISTINDEX", "R-SUBEVAL", "R-LITCHAIN", "R-EXECADDR", "R-SUBBOUNDS", "R-COLLMONO", "R-INPUT-RO", "R-RESUPPRESS", "R-JSONNUM", "R-VALIDATE"},
 		Explanation: "Selection by position as shapes of the subscript executor: the element loaded at array[i] reaches the continuation with no branch on its value; `last` is the recorded length minus one of the innermost subscripted array (recorded before the subscripts are evaluated, restored on every exit); subscript values are truncated, finiteness-checked and range-checked against int32; the out-of-bounds error is guarded by strictness; a failed subscript expression is never mistaken for index 0.",
 		Decided: []string{"R-SELECT: no value-dependent branch between array[i] and the continuation", "R-LAST: `last` = recorded size − 1; hard error outside a subscript",
 			"R-TRUNC + R-F2I: truncating conversion after a NaN/Inf check, int32 range test on the result", "R-STATE: innermost size restored on every exit",
@@ -577,7 +652,7 @@ func init() {
 	})
 	addProp(&PropSpec{
 		ID:          "C16",
-		Rules:       []string{"R-METHODTYPES", "R-F2I", "R-FINITE", "R-OVF", "R-TOWER", "R-STATE", "R-RADIX", "R-EMPTYPROD", "R-ERRFIRST", "R-DIGITRANGE", "R-VARSIDENT", "R-JSONNUM"},
+		Rules:       []string{"R-METHODTYPES", "R-F2I", "R-FINITE", "R-OVF", "R-TOWER", "R-STATE", "R-RADIX", "R-EMPTYPROD", "R-ERRFIRST", "R-DIGITRANGE", "R-VARSIDENT", "R-JSONNUM", "R-CHECKEDVALUE"},
 		Explanation: "Domains and ranges of the item methods as finite tables and guard discipline: for each of the 12 methods the set of item types that reach the continuation is computed by walking the method with the input type fixed (abstract interpretation) and compared with the documented domain, every other type must leave through a suppressible error; conversions to integers are range-guarded as evaluated in float64; computed doubles are finiteness-checked; integer callbacks cannot wrap; the numeric representations are handled together; no method arm is missing.",
 		Decided: []string{"R-METHODTYPES: accepted-type table of all 12 methods (156 cells) and suppressible rejection", "R-F2I: .integer()/.bigint() conversions are range-safe (2^63 included)",
 			"R-FINITE: .double()/.number()/.decimal() never yield Inf/NaN", "R-OVF: .abs() cannot wrap", "R-TOWER", "R-METHODTYPES also reports a method constant without an arm in the dispatcher"},
